@@ -290,7 +290,7 @@ FB_COMMON = {
     "vt_empty_invoke": Lift(CALLVT, r"static R _empty_invoke\(", rules=[
         Sub(r"\bthrow_bad_function_call<R>\(\)", "throw_bad_function_call_R()", None), Sub(r"\bR\(\)", "0", None)]),
     "destroy": Lift(FCPP, r"void function_base::destroy\(\) noexcept", rules=fb_rules()),
-    "reset": Lift(FCPP, r"void function_base::reset\(vtable const\* empty_vptr\) noexcept", rules=fb_rules()),
+    "reset": Lift(FCPP, r"void function_base::reset\(vtable const\*[^)]*\) noexcept", rules=fb_rules()),
     "swap": Lift(FCPP, r"void function_base::swap\(function_base& f\) noexcept", rules=fb_rules()),
     "bf_get_empty_vtable": Lift(FHPP, r"static constexpr vtable const\* get_empty_vtable\(\) noexcept", rules=[
         Sub(r"\bdetail::get_empty_function_vtable<R\(Ts\.\.\.\)>\(\)", "get_empty_function_vtable()", 1)]),
